@@ -48,3 +48,215 @@ def update_execution_history_contract():
         ],
         raises={},
         modifies=["self.execution_history[execution_arn]"])
+
+
+# --------------------------------------------------------------------------------------------------------------
+# broadcast_notification (C11)
+# --------------------------------------------------------------------------------------------------------------
+D = "execution_detail"
+CW_KEYS = "'version', 'id', 'detail-type', 'source', 'account', 'time', 'region', 'resources', 'detail'"
+
+
+def abstract_arn(reg):
+    """Callers' view of the ARN functions (their string laws are C17): parse_arn yields a fresh dict with the seven
+    fields or raises IndexError; create_arn yields a string."""
+    K = "asl_workflow_engine/arn.py::"
+    reg.contract(K + "parse_arn", types={"arn": "str"}, fresh_result="dict",
+                 ensures=[("keys", "keys_exactly(result, 'arn', 'partition', 'service', 'region', 'account', 'resource', 'resource_type')"),
+                          ("strings", "isstr(result['account']) and isstr(result['region']) and isstr(result['resource'])")],
+                 raises={"IndexError": None}, modifies=None, pure=True)
+    reg.contract(K + "create_arn", types={}, result_type="str", raises={}, modifies=None, pure=True,
+                 assumes=["create_arn returns a string (format: C17)"])
+
+
+def broadcast_notification_contract():
+    return Contract(
+        SE + "StateEngine.broadcast_notification",
+        types={"self": "obj", "execution_arn": "str", "execution_detail": "dict", "context": "dict"},
+        requires=["haskey(%s, 'startDate')" % D, "haskey(%s, 'stopDate')" % D, "haskey(%s, 'stateMachineArn')" % D,
+                  "haskey(%s, 'status')" % D, "isstr(%s['stateMachineArn'])" % D, "isstr(%s['status'])" % D,
+                  "isnone(%s['startDate']) or isnum(%s['startDate'])" % (D, D),
+                  "isnone(%s['stopDate']) or isnum(%s['stopDate'])" % (D, D),
+                  "not same(%s, context)" % D, "not same(self, %s)" % D],
+        ensures=[
+            # C11: each status change is published exactly once, to '<stateMachineArn>.<status>', in the CloudWatch shape
+            ("C11:published-once", "n_bcast == old(n_bcast) + 1"),
+            ("C11:subject", "bcast_subject == old(%s['stateMachineArn']) + '.' + old(%s['status'])" % (D, D)),
+            ("C11:cloudwatch-shape", "at_snapshot('bcast_heap', keys_exactly(bcast_msg, %s))" % CW_KEYS),
+            ("C11:detail-is-the-record", "same(at_snapshot('bcast_heap', bcast_msg['detail']), execution_detail)"),
+            ("C11:source-and-type", "at_snapshot('bcast_heap', bcast_msg['source']) == 'aws.states' and "
+                                    "at_snapshot('bcast_heap', bcast_msg['detail-type']) == 'Step Functions Execution Status Change'"),
+            # ... with startDate / stopDate in milliseconds in the notification ...
+            ("C11:start-in-millis", "implies(old(istrue(%s['startDate'])), at_snapshot('bcast_heap', %s['startDate']) == "
+                                    "trunc(old(real(%s['startDate'])) * 1000))" % (D, D, D)),
+            ("C11:stop-in-millis", "implies(old(istrue(%s['stopDate'])), at_snapshot('bcast_heap', %s['stopDate']) == "
+                                   "trunc(old(real(%s['stopDate'])) * 1000))" % (D, D, D)),
+            ("C11:null-stop-stays-null", "implies(old(isnone(%s['stopDate'])), at_snapshot('bcast_heap', isnone(%s['stopDate'])))" % (D, D)),
+            ("C11:status-and-output-as-stored", "at_snapshot('bcast_heap', %s['status']) == old(%s['status'])" % (D, D)),
+            # ... and publishing does not alter the stored record (which keeps epoch seconds)
+            ("C11:record-restored", "unchanged(execution_detail)"),
+        ],
+        raises={"IndexError": None},
+        xensures={"IndexError": [("C11:malformed-arn-publishes-nothing", "n_bcast == old(n_bcast) and unchanged(execution_detail)")]},
+        modifies=None,
+        assumes=["EventDispatcher.broadcast does not raise (A2): if it did, the record would be left in milliseconds (DESIGN C11)"])
+
+
+# --------------------------------------------------------------------------------------------------------------
+# start_execution / end_execution (C02, C09, C11, C15)
+# --------------------------------------------------------------------------------------------------------------
+EXEC_ARN = "event['context']['Execution']['Id']"
+REC = "self.executions[%s]" % EXEC_ARN
+
+
+def callees(reg):
+    """Callee view of update_execution_history (engine.py), broadcast_notification and the dispatcher hook."""
+    for g, t in (("n_bn", "int"), ("bn_detail", "val"), ("bn_heap", "heap"), ("bn_arn", "val"), ("bn_nsfn", "int"),
+                 ("bn_nhist", "int"), ("sfn_detail", "val"), ("sfn_output", "val"), ("sfn_arn", "val")):
+        reg.ghost(g, t)
+    reg.contract(
+        SE + "StateEngine.broadcast_notification",
+        types={"self": "obj", "execution_arn": "str", "execution_detail": "dict", "context": "dict"},
+        ghost={"n_bn": "n_bn + 1", "bn_detail": "execution_detail", "bn_heap": "__heap__", "bn_arn": "execution_arn",
+               "bn_nsfn": "n_sfn", "bn_nhist": "n_hist"},
+        ghost_modifies=["n_bcast", "bcast_subject", "bcast_msg", "bcast_heap"],
+        ensures=[("record-restored", "unchanged(execution_detail)")],
+        modifies=None, raises={},
+        assumes=["execution ARNs handed to broadcast_notification have at least five ':' (so parse_arn does not raise): "
+                 "they are minted by create_arn (C17)"])
+    reg.external("self.task_dispatcher.handle_sfn_response", ["correlation_id", "input", "output", "detail"],
+                 modifies="ALL", preserves="PROTECTED", result_type="none",
+                 ghost={"n_sfn": "n_sfn + 1", "sfn_detail": "detail", "sfn_output": "output", "sfn_arn": "correlation_id"},
+                 assumes=["handle_sfn_response completes a waiting parent task (its own obligations: C15) and leaves the "
+                          "terminating execution's event, record and history alone (A8)"])
+
+
+STD = "old(state_machine.get('type')) == 'STANDARD'"
+
+
+def start_execution_contract():
+    return Contract(
+        SE + "StateEngine.start_execution",
+        types={"self": "obj", "state_machine": "dict", "start_state": "any", "event": "dict"},
+        requires=E.WF_EVENT[:11] + [
+            "not same(event, event['context'])", "not same(event['context'], event['context']['State'])",
+            "not same(event['context'], event['context']['Execution'])",
+            "not same(event['context']['State'], event['context']['Execution'])",
+            "isdict(self.executions)", "isdict(self.execution_history)", "not same(self.executions, self.execution_history)",
+        ] + E.SEP_SELF_EVENT + [
+            # an execution started through the API: name, id and state machine id are already in the context (the
+            # low-level path that mints them is the ARN lemma of C17)
+            "haskey(event['context'], 'StateMachine')", "isdict(event['context']['StateMachine'])",
+            "haskey(event['context']['StateMachine'], 'Id')", "isstr(event['context']['StateMachine']['Id'])",
+            "haskey(event['context']['Execution'], 'Name')", "isstr(event['context']['Execution']['Name'])",
+            "implies(haskey(state_machine, 'loggingConfiguration'), isdict(state_machine['loggingConfiguration']))",
+            E.hist_is_list(EXEC_ARN).replace("execution_arn", EXEC_ARN) if False else
+            "implies(%s in self.execution_history, islist(self.execution_history[%s]))" % (EXEC_ARN, EXEC_ARN),
+        ],
+        ensures=[
+            # C02: one RUNNING notification at start; the record is RUNNING with no output and no stop date
+            ("C02,C11:one-running-notification", "n_bn == old(n_bn) + 1 and bn_arn == old(%s)" % EXEC_ARN),
+            ("C02:running-shape", "at_snapshot('bn_heap', bn_detail['status']) == 'RUNNING' and "
+                                  "at_snapshot('bn_heap', isnone(bn_detail['output'])) and "
+                                  "at_snapshot('bn_heap', isnone(bn_detail['stopDate'])) and "
+                                  "at_snapshot('bn_heap', isnum(bn_detail['startDate']))"),
+            ("C02,C11:identity", "at_snapshot('bn_heap', bn_detail['executionArn']) == old(%s) and "
+                                 "at_snapshot('bn_heap', bn_detail['stateMachineArn']) == old(event['context']['StateMachine']['Id']) and "
+                                 "at_snapshot('bn_heap', bn_detail['name']) == old(event['context']['Execution']['Name']) and "
+                                 "at_snapshot('bn_heap', isstr(bn_detail['input']))" % EXEC_ARN),
+            ("C02:standard-stores-the-record", "implies(%s, old(%s) in self.executions and same(self.executions[old(%s)], bn_detail))"
+             % (STD, EXEC_ARN, EXEC_ARN)),
+            # C09: the history begins with ExecutionStarted carrying the input; EXPRESS stores nothing
+            ("C09:starts-with-execution-started", "n_hist == old(n_hist) + 1 and hist_type == 'ExecutionStarted' and "
+                                                  "same(hist_arn, old(%s)) and "
+                                                  "at_snapshot('hist_heap', hist_details['input']) == at_snapshot('bn_heap', bn_detail['input'])" % EXEC_ARN),
+            ("C09:history-reset-before-first-event", "implies(%s, at_snapshot('hist_heap', islist(self.execution_history[old(%s)]) and "
+                                                     "seqlen(self.execution_history[old(%s)]) == 0))" % (STD, EXEC_ARN, EXEC_ARN)),
+            ("C09:express-stores-nothing", "implies(old(state_machine.get('type')) == 'EXPRESS', "
+                                           "unchanged(self.executions) and unchanged(self.execution_history))"),
+            ("C09,C11:started-logged-before-notified", "bn_nhist == old(n_hist) + 1"),
+            ("C03:start-state-set", "event['context']['State']['Name'] == start_state or same(event['context']['State']['Name'], start_state)"),
+        ],
+        raises={},
+        modifies="ALL")
+
+
+# the engine's in-band convention: the terminal data carries a truthy "Error" member <=> the execution failed
+FAILED_IN = "old(isdict(event['data']) and istrue(event['data'].get('Error')))"
+DET = "bn_detail"
+
+
+def end_execution_contract():
+    return Contract(
+        SE + "StateEngine.end_execution",
+        types={"self": "obj", "state_machine": "dict", "state_type": "str", "event": "dict"},
+        requires=E.WF_EVENT + E.WF_SELF + E.SEP_SELF_EVENT + [
+            "isstr(event['context']['State']['Name'])",
+            "implies(%s in self.execution_history, islist(self.execution_history[%s]))" % (EXEC_ARN, EXEC_ARN),
+            "implies(haskey(state_machine, 'loggingConfiguration'), isdict(state_machine['loggingConfiguration']))",
+            "isdict(event['data']) or islist(event['data']) or isstr(event['data']) or isnum(event['data']) or "
+            "isbool(event['data']) or isnone(event['data'])",
+            "implies(isdict(event['data']), not same(event['data'], event) and not same(event['data'], event['context']) and "
+            "not same(event['data'], self.executions) and not same(event['data'], self.execution_history) and "
+            "not same(event['data'], self.branch_metadata) and not same(event['data'], event['context']['State']) and "
+            "not same(event['data'], event['context']['Execution']))",
+            # STANDARD executions have their record (created by start_execution, or re-created after a restart)
+            "implies(state_machine.get('type') == 'STANDARD', %s in self.executions and isdict(%s) and "
+            "haskey(%s, 'stateMachineArn') and isstr(%s['stateMachineArn']) and haskey(%s, 'startDate') and "
+            "isnum(%s['startDate']) and haskey(%s, 'status') and not same(%s, event) and not same(%s, event['context']) "
+            "and not same(%s, event['context']['State']) and not same(%s, event['context']['Execution']) and "
+            "not same(%s, self.executions) and not same(%s, self.execution_history) and not same(%s, self.branch_metadata) and "
+            "not same(%s, event['data']) and not same(%s, self) and not same(%s, self.task_dispatcher))"
+            % ((EXEC_ARN,) + (REC,) * 16),
+            # this contract covers STANDARD workflows (the EXPRESS branch synthesises the record from the ARN and
+            # StartTime with string functions whose laws are C17 / C08; it is not under this contract)
+            "state_machine.get('type') == 'STANDARD'",
+            "%s in self.execution_history" % EXEC_ARN,
+            # an Error member, when present, is an error NAME (a string) or null
+            "implies(isdict(event['data']) and haskey(event['data'], 'Error'), isstr(event['data']['Error']) or isnone(event['data']['Error']))",
+            "haskey(event['context']['Execution'], 'Input')",
+        ],
+        ensures=[
+            # C02: exactly one terminal notification per terminal handling, after the record and history are final
+            ("C02,C11:one-terminal-notification", "n_bn == old(n_bn) + 1 and bn_arn == old(%s)" % EXEC_ARN),
+            ("C02:standard-notifies-the-stored-record", "implies(%s, same(%s, old(%s)))" % (STD, DET, REC)),
+            # record shape: stopDate set iff terminal; output iff SUCCEEDED; error/cause iff FAILED
+            ("C02:stop-date-set", "at_snapshot('bn_heap', isnum(%s['stopDate']))" % DET),
+            ("C02:failed-shape", "implies(%s, at_snapshot('bn_heap', %s['status'] == 'FAILED' and isnone(%s['output']) and "
+                                 "haskey(%s, 'error') and haskey(%s, 'cause')))" % (FAILED_IN, DET, DET, DET, DET)),
+            ("C02:succeeded-shape", "implies(not %s, at_snapshot('bn_heap', %s['status'] == 'SUCCEEDED' and isstr(%s['output'])))"
+             % (FAILED_IN, DET, DET)),
+            ("C02:succeeded-has-no-error", "implies(not %s and not old(%s and haskey(%s, 'error')), "
+                                           "at_snapshot('bn_heap', not haskey(%s, 'error')))" % (FAILED_IN, STD.replace("old(", "(").rstrip(")") + ")" if False else "state_machine.get('type') == 'STANDARD'", REC, DET)),
+            ("C01,C02:error-name", "implies(%s and old(event['data'].get('Error')) != 'States.ExecutionTimeout', "
+                                   "same(at_snapshot('bn_heap', %s['error']), old(event['data'].get('Error'))))" % (FAILED_IN, DET)),
+            # C08: the engine's internal States.ExecutionTimeout is reported as States.Timeout
+            ("C08:execution-timeout-reported-as-timeout", "implies(%s and old(event['data'].get('Error')) == 'States.ExecutionTimeout', "
+                                                          "at_snapshot('bn_heap', %s['error']) == 'States.Timeout')" % (FAILED_IN, DET)),
+            # C09 / C11: the last history event is the terminal event and agrees with the record
+            ("C09,C11:terminal-event-failed", "implies(%s, hist_type == 'ExecutionFailed' and same(hist_arn, old(%s)) and "
+                                              "same(at_snapshot('hist_heap', hist_details['error']), at_snapshot('bn_heap', %s['error'])) and "
+                                              "same(at_snapshot('hist_heap', hist_details['cause']), at_snapshot('bn_heap', %s['cause'])))"
+             % (FAILED_IN, EXEC_ARN, DET, DET)),
+            ("C09,C11:terminal-event-succeeded", "implies(not %s, hist_type == 'ExecutionSucceeded' and same(hist_arn, old(%s)) and "
+                                                 "at_snapshot('hist_heap', hist_details['output']) == at_snapshot('bn_heap', %s['output']))"
+             % (FAILED_IN, EXEC_ARN, DET)),
+            ("C09:one-terminal-event", "n_hist == old(n_hist) + (1 if %s else 2)" % FAILED_IN),
+            ("C09,C11:logged-before-notified", "bn_nhist == n_hist"),
+            # C15: a waiting parent task is completed on every terminal path, before the notification
+            ("C15:parent-completed-before-notification", "n_sfn == old(n_sfn) + 1 and bn_nsfn == n_sfn and same(sfn_arn, old(%s)) "
+                                                         "and same(sfn_detail, %s)" % (EXEC_ARN, DET)),
+            # C03: a successful end releases the join state of the execution
+            ("C03:success-releases-join-state", "implies(not %s, not (old(%s) in self.branch_metadata))" % (FAILED_IN, EXEC_ARN)),
+            # C09: EXPRESS stores nothing
+            ("C09:express-stores-nothing", "implies(old(state_machine.get('type')) != 'STANDARD', "
+                                           "unchanged(self.executions) and unchanged(self.execution_history))"),
+        ],
+        raises={"ValueError": None, "IndexError": None, "TypeError": None, "AttributeError": None},
+        xensures={},
+        protected=["event", "event['context']", "event['context']['State']", "event['context']['Execution']", "self",
+                   "self.executions", "self.execution_history", "self.branch_metadata", "state_machine", "self.task_dispatcher",
+                   REC, "event['data']"],
+        modifies="ALL",
+        assumes=["exceptions from parse_rfc3339_datetime / parse_arn on the EXPRESS branch (malformed StartTime / ARN) are "
+                 "allowed to escape; StartTime and the ARN are written by the engine itself (C08, C17)"])
